@@ -22,6 +22,11 @@ def gen_quote(rng):
     ask = mid + sp
     if rng.random() < 0.5:
         bid, ask = mid - sp if mid - sp > 0 else mid, mid if mid - sp > 0 else mid + sp
+    k = rng.random()
+    if k < 0.12:
+        bid, ask = ask, bid          # crossed quote (bid > ask): legal, the fill side is still the handler's ask / bid
+    elif k < 0.16:
+        ask = bid                    # locked quote
     return bid, ask
 
 
